@@ -118,7 +118,7 @@ PROPS = {
     "C04": dict(proj=proj_decisions, gen={"focus": ["cond"]}, hist="some",
                 nontrivial=lambda st, case: st.get("cond", 0) >= 1,
                 rule=">= 1 Condition evaluated"),
-    "C05": dict(proj=proj_decisions, gen={"focus": ["cloop", "wloop"]}, hist="some",
+    "C05": dict(proj=proj_decisions, gen={"focus": ["cloop", "wloop"], "ploop_lit_in_loop": True, "shadow_loopvars": True}, hist="some",
                 nontrivial=lambda st, case: st.get("cloop_iters", 0) + st.get("wloop_iters", 0) >= 1,
                 rule=">= 1 loop iteration executed"),
     "C06": dict(proj=proj_order, gen={"focus": ["ploop"]}, hist="some",
